@@ -135,6 +135,18 @@ def run_shard(ctx, shard):
     for i in range(shard["n"]):
         c = make_case(rng)
         judge(ctx, c)
+        d_ = np.asarray(c["dir"], float)
+        if i % 3 == 0 and len(d_) >= 6:
+            # a second spectrum in the same process on a grid of the same length and the same first/last angle whose
+            # interior angles differ (anything remembered from the first grid must not leak into this one)
+            c2 = dict(c)
+            fw = (np.roll(d_, -1) - d_ + 180.0) % 360.0 - 180.0
+            shift = np.zeros_like(d_)
+            shift[1:-1] = rng.uniform(-0.35, 0.35, len(d_) - 2) * np.minimum(np.abs(fw[:-2]), np.abs(fw[1:-1]))
+            c2["dir"] = d_ + shift
+            c2["dkind"] = str(c["dkind"]) + "+interior-moved"
+            ctx.count("C02.second_grid_same_ends_other_interior")
+            judge(ctx, c2)
         if i % 2 == 0:
             c["_hseed"] = int(rng.integers(0, 2 ** 62))
             hist.judge_history(ctx, "C02", c, np.random.default_rng(c["_hseed"]), *history_io(c))
